@@ -52,10 +52,20 @@ def _reset(M):
     M.traces = {}
 
 
+_BASE = None
+
+
 def _scratch():
-    base = os.environ.get("C15_SCRATCH", os.path.join(tempfile.gettempdir(), "ft-c15"))
-    os.makedirs(base, exist_ok=True)
-    return tempfile.mkdtemp(prefix="case-", dir=base)
+    """a fresh directory per case below a per-process base (so that nothing another run or another
+    process removes can take a case's files away)"""
+    global _BASE
+    if _BASE is None or not os.path.isdir(_BASE):
+        root = os.environ.get("C15_SCRATCH") or os.environ.get("VERIF_SCRATCH") or tempfile.gettempdir()
+        os.makedirs(root, exist_ok=True)
+        _BASE = tempfile.mkdtemp(prefix=f"ft-c15-{os.getpid()}-", dir=root)
+        import atexit
+        atexit.register(lambda d=_BASE: shutil.rmtree(d, ignore_errors=True))
+    return tempfile.mkdtemp(prefix="case-", dir=_BASE)
 
 
 def _row(r):
